@@ -611,18 +611,18 @@ ADDENDA8 = {
     'C05': ' Round 8: key-forced environment; unknown authorized_keys options (known finding); list challenge is not a verdict; lower-cased option lookup (shared C17.R3).',
     'C06': ' Round 8: repeated KEXRSA_PUBKEY refused; one response per challenge; no dispatch after teardown; kex messages read to their end (shared C03.R8).',
     'C07': ' Round 8: compressor renewed at NEWKEYS (shared C02.R13); SOCKS input buffer only consumed (shared C20.R6).',
-    'C08': ' Round 8: one session start per channel; clear_writer lifts its pause; CLOSE while paused waits for buffered data (shared C07.R2).',
-    'C09': ' Round 8: data after a local close discarded (shared C07.R8); zero low-water mark (shared C08.R9).',
+    'C08': ' Round 8: one session start per channel; clear_writer lifts its pause; CLOSE while paused waits for buffered data (shared C07.R2); discarded data returned to the window.',
+    'C09': ' Round 8: data after a local close discarded (shared C07.R8); zero low-water mark (shared C08.R9); tunneled sessions end the downstream process.',
     'C10': ' Round 8: 256 KiB packet bound matched by channel caps; limits / ranges numbers bounded; _cleanup idempotent; window check (shared C08.R1).',
     'C11': ' Round 8: compression contexts (shared C02.R13); key exchange handlers not memoised.',
-    'C12': ' Round 8: block reader never built with block size 0; copy-data states the announced length; reply type of status-only requests (shared C14.R7).',
-    'C13': ' Round 8: _setstat passes follow_symlinks to every attribute call.',
+    'C12': ' Round 8: block reader never built with block size 0; copy-data states the announced length; reply type of status-only requests (shared C14.R7); missing listing sizes looked up.',
+    'C13': ' Round 8: _setstat passes follow_symlinks to every attribute call; chrooted readlink resolves from the link directory.',
     'C14': ' Round 8: numeric attribute presence tested with "is not None".',
     'C15': ' Round 8: sk key flags and private key comments kept as read.',
-    'C16': ' Round 8: unknown critical option refused on "critical" alone; key equality (shared C04.R8).',
+    'C16': ' Round 8: unknown critical option refused on "critical" alone; key equality (shared C04.R8); allowed signers split at newline only (shared C17.R8).',
     'C17': ' Round 8: entries split at newline only; value options not accepted bare; one entry list per name; files loaded one by one.',
     'C18': ' Round 8: first hop of a ProxyJump chain leaves the tunnel to the config.',
-    'C20': ' Round 8: destination host name errors refuse that open; forwarded-streamlocal open fields (shared C02.R1).',
+    'C20': ' Round 8: destination host name errors refuse that open; forwarded-streamlocal open fields (shared C02.R1); abandoned destination sockets closed.',
 }
 for _p, _t in ADDENDA8.items():
     CLAIMS[_p]['text'] = CLAIMS[_p]['text'].rstrip() + _t
